@@ -10,8 +10,7 @@ Open Scope Z_scope.
 
 Record case := mk_case {
   cs_cfg : config;
-  cs_rp : list bool;          (* placement-scope columns of the root's parent (the empty path) *)
-  cs_rl : list bool;          (* limit-scope columns of the root's parent *)
+  cs_rs : list bool;          (* scope column of the root's parent *)
   cs_tree : tree;
   cs_perm : list Z            (* order in which the entries are processed *)
 }.
@@ -35,14 +34,14 @@ Definition apply_perm {A} (perm : list Z) (l : list A) : list A :=
 
 Definition scope_of_entries (es : list entry) (p : path) : list bool :=
   match find (fun e => match e_kind e with KDir => path_eqb (e_path e) p | _ => false end) es with
-  | Some e => c_lim_scope (e_cols e)
+  | Some e => c_scope (e_cols e)
   | None => []
   end.
 
 Definition explain_entries (cfg : config) (es : list entry) : list (path * explanation) :=
   flat_map (fun e => match e_kind e with
                      | KDir => if scan_excluded (e_cols e) true then []
-                               else [(e_path e, explain cfg (c_lim_scope (e_cols e)))]
+                               else [(e_path e, explain cfg (c_scope (e_cols e)))]
                      | _ => []
                      end) es.
 
@@ -50,7 +49,7 @@ Definition run (c : case) : outcome :=
   let cfg := cs_cfg c in
   if negb (config_ok cfg) then mk_outcome false [] [] [] [] [] [] [] []
   else
-    let es := apply_perm (cs_perm c) (entries (cs_rp c) (cs_rl c) (cs_tree c)) in
+    let es := apply_perm (cs_perm c) (entries (cs_rs c) (cs_rs c) (cs_tree c)) in
     let sc := scan_fold cfg es in
     let on := checker_enabled cfg in
     mk_outcome true (s_stats sc) (s_files sc)
@@ -108,11 +107,11 @@ Definition d_rcols (s : sx) : option rcols :=
 
 Definition d_cols (s : sx) : option cols :=
   match s with
-  | L [a; b; c; d; e; f; g; h; i; j; k] =>
+  | L [a; b; c; d; e; f; g; i; j; k] =>
       a' <- d_bool a ;; b' <- d_bool b ;; c' <- d_bool c ;; d' <- d_bool d ;; e' <- d_bool e ;;
-      f' <- d_bool f ;; g' <- d_list d_bool g ;; h' <- d_list d_bool h ;; i' <- d_gcols i ;;
+      f' <- d_bool f ;; g' <- d_list d_bool g ;; i' <- d_gcols i ;;
       j' <- d_list d_rcols j ;; k' <- d_list (d_list d_bool) k ;;
-      Some (mk_cols a' b' c' d' e' f' g' h' i' j' k')
+      Some (mk_cols a' b' c' d' e' f' g' i' j' k')
   | _ => None
   end.
 
@@ -159,10 +158,10 @@ Definition d_config (s : sx) : option config :=
 
 Definition d_case (s : sx) : option case :=
   match s with
-  | L [cfg; rp; rl; t; perm] =>
-      cfg' <- d_config cfg ;; rp' <- d_list d_bool rp ;; rl' <- d_list d_bool rl ;;
+  | L [cfg; rs; t; perm] =>
+      cfg' <- d_config cfg ;; rs' <- d_list d_bool rs ;;
       t' <- d_tree t ;; perm' <- d_list d_z perm ;;
-      Some (mk_case cfg' rp' rl' t' perm')
+      Some (mk_case cfg' rs' t' perm')
   | _ => None
   end.
 
